@@ -97,6 +97,9 @@ func runC08(r *Run) {
 	w.SitePct = g.Range(20, 80)
 	w.YieldPct = g.Range(5, 50)
 	w.YieldMax = time.Duration(g.Range(50, 4000)) * time.Microsecond
+	if r.Opts["noyield"] != "" {
+		w.YieldPct = 0
+	}
 	wal.DefaultFactoryOptions.SegmentSize = int32([]int{4096, 65536, 1 << 20}[g.Intn(3)])
 	rf := uint32(g.Range(1, 3))
 	nWriters := g.Range(2, 12)
